@@ -71,13 +71,14 @@ type Sim struct {
 	sinceAdv    int64
 	MaxSpin     int64 // grants without clock advance before a livelock is declared
 
-	Crashes   []Crash
-	Livelock  string
-	Exits     []int
-	Multi     int64 // decisions with >= 2 candidates
-	Overtakes int64
-	roots     int
-	Log       func(format string, a ...any)
+	Crashes        []Crash
+	Livelock       string
+	Exits          []int
+	Multi          int64 // decisions with >= 2 candidates
+	Overtakes      int64
+	OvertakeBudget time.Duration // total simulated time the scheduler may spend letting timers overtake
+	roots          int
+	Log            func(format string, a ...any)
 }
 
 var cur atomic.Pointer[Sim]
@@ -89,7 +90,7 @@ func Active() *Sim { return cur.Load() }
 // Must be called inside the synctest bubble.
 func New(tape []byte, seed uint64) *Sim {
 	s := &Sim{gs: map[int64]*G{}, tape: tape, rng: seed, wake: make(chan struct{}, 1), kill: make(chan struct{}),
-		stopped: make(chan struct{}), MaxSpin: 200000, lastAdvance: time.Now()}
+		stopped: make(chan struct{}), MaxSpin: 200000, lastAdvance: time.Now(), OvertakeBudget: 3 * time.Second}
 	h := fnv.New64a()
 	s.trace = h.Sum64()
 	cur.Store(s)
@@ -180,10 +181,18 @@ func (s *Sim) loop() {
 		if x >= 248 {
 			// let timers overtake the runnable goroutines
 			y := s.next()
-			d := time.Duration(1000) << (y % 20)
-			s.Overtakes++
-			time.Sleep(d + time.Duration(y))
-			continue
+			d := time.Duration(1000)<<(y%20) + time.Duration(y)
+			if d > s.OvertakeBudget {
+				// the perturbation must not eat the simulated-time bounds the oracles check
+				d = 0
+			}
+			if d > 0 {
+				s.OvertakeBudget -= d
+				s.Overtakes++
+				time.Sleep(d)
+				continue
+			}
+			x = y
 		}
 		if now := time.Now(); now.After(s.lastAdvance) {
 			s.lastAdvance = now
